@@ -219,7 +219,8 @@ def _explicit_shape_helper(ctx, fn, ex):
             is_op = any(pmatch("isinstance(Q_v, Operator)", a) == {"v": ("lp", 0)} for a in ats_)
             sign = any(a[0] == "op" and a[1] == "in" and a[2] == ("a", ("lp", 0), "operator") and a[3][0] in ("tuple", "list", "set") and {x[1] for x in a[3][1:]} == {"s", "u"} for a in ats_)
             rec = v[0] == "call" and v[2] == (("i", ("a", ("lp", 0), "operands"), ("c", 0)),) and (v[1] == ("n", clo.name) or v[1][0] in ("lam", "obj", "v", "n"))
-            okc = okc or (is_op and sign and rec and len(ats_) == 2)
+            both = len(ats_) == 2 and equivalent(to_formula(c), f_and(*[A(a) for a in ats_])) is None  # both tests hold, not their negations
+            okc = okc or (is_op and sign and rec and both)
         ok = ok or (okb and okc)
     ctx.check(ok, "C40.explicit-shape", fn.site, "assign.has_explicit_shape", found=detail,
               required="explicit shape: Signal, ArrayProxy, Slice, ValueCastable - and a sign conversion (Operator 's' / 'u') of a value that has one")
@@ -383,6 +384,13 @@ def union(ctx):
         member = [t for t, v in ex.config if pmatch("Q_n in Q_u.shape().members", t) and v is True]
         ctx.check(ok and bool(single) and bool(member), "C40.union", e.site, "assign.union", found=tstr(call)[:160] + f" under {fstr(g)[:120]}",
                   required="a union is assigned from a singleton mapping only: the mapping's one key must be a member of the union, and that member is assigned (same name both sides)")
+    # ... and the other outcomes of those two tests are rejections, not silent acceptance
+    for what, p in (("non-singleton mapping", "1 == len(Q_m)"), ("key that is not a member of the union", "Q_n in Q_u.shape().members")):
+        neg = [ex for ex in fn.exs if any(pmatch(p, t) and v is False for t, v in ex.config)]
+        ctx.floor("C40", f"configurations with a {what}", len(neg), 1, fn.site)
+        bad = [ex for ex in neg if not [r for r in ex.of(Raise)] or [e for e in ex.of(Effect) if _yield_arg(e) is not None]]
+        ctx.check(not bad, "C40.union-rejects", fn.site, f"assign.union[{what}]", found=f"{len(neg) - len(bad)} of {len(neg)} such configurations raise",
+                  required=f"assigning a union from a {what} raises (nothing is assigned)")
 
 
 def arg_fields(ctx):
@@ -461,7 +469,15 @@ def proxy_fields(ctx):
             d = ex.vardef(lst) or lst
             if d[0] == "lc" and len(d[3]) == 1 and d[2] == ("call", ("n", "assign_arg_fields"), (d[3][0][0],), ()):
                 g = py_guard(r)
-                ok = any("None" in tstr(a) for a in atoms_of(g)) or any("None" in tstr(t) for t, _ in ex.config)
+                # ... under `all(f is not None for f in <that list>)`
+                for a in atoms_of(g):
+                    ma = pmatch("all(Q_g)", a)
+                    if ma is None or ma["g"][0] != "lc" or len(ma["g"][3]) != 1:
+                        continue
+                    b, it, conds = ma["g"][3][0]
+                    it = ex.vardef(it) or it
+                    if it == d and not conds and ma["g"][2] in (mk_op("not", mk_op("is", b, ("c", None))), mk_op("is not", b, ("c", None))):
+                        ok = ok or implies(g, A(a)) is None
     ctx.check(ok, "C40.proxy-fields", fn.site, "arrayproxy_fields", found=detail,
               required="set.intersection of assign_arg_fields(element) over all elements, only when every element has fields")
 
